@@ -273,18 +273,52 @@ class SBytes:
             if isinstance(n, int) and n <= 64:
                 return SBytes([seg.at(lo + i if isinstance(lo, int) else z3.simplify(zint(lo) + i)) for i in range(n)])
             return SBytes([seg.window(lo, n)])
+        nav = self._navigate(lo, n)
+        if nav is not None:
+            return nav
         if isinstance(n, int) and n <= 64:
             return SBytes([self.seq()[zint(lo) + i] for i in range(n)])
-        # whole-segment fast path: a single segment starting exactly at lo with length n
+        # rope navigation with symbolic offsets: find the item that starts exactly at lo (structurally)
+        zl = z3.simplify(zint(lo))
         k = 0
-        for it in self.items:
-            if isinstance(it, Seg):
-                if z3.eq(z3.simplify(zint(k)), z3.simplify(zint(lo))) and z3.eq(z3.simplify(zint(it.n)), z3.simplify(zint(n))):
+        for idx, it in enumerate(self.items):
+            zk = z3.simplify(zint(k))
+            if z3.eq(zk, zl):
+                if isinstance(n, int):
+                    out = []
+                    j = idx
+                    while len(out) < n and j < len(self.items) and not isinstance(self.items[j], Seg):
+                        out.append(self.items[j])
+                        j += 1
+                    if len(out) == n:
+                        return SBytes(out)
+                elif isinstance(it, Seg) and z3.eq(z3.simplify(zint(it.n)), z3.simplify(zint(n))):
                     return SBytes([it])
-                k = k + it.n
-            else:
-                k = k + 1
+                break
+            k = k + (it.n if isinstance(it, Seg) else 1)
         return SBytes([Seg(z3.Extract(self.seq(), zint(lo), zint(n)), n)])
+
+    def _navigate(self, lo, n):
+        if len(self.items) <= 1:
+            return None
+        zl = z3.simplify(zint(lo))
+        k = 0
+        for idx, it in enumerate(self.items):
+            zk = z3.simplify(zint(k)) if not isinstance(k, int) else z3.IntVal(k)
+            if z3.eq(zk, zl):
+                if isinstance(n, int):
+                    out = []
+                    j = idx
+                    while len(out) < n and j < len(self.items) and not isinstance(self.items[j], Seg):
+                        out.append(self.items[j])
+                        j += 1
+                    if len(out) == n:
+                        return SBytes(out)
+                elif isinstance(it, Seg) and z3.eq(z3.simplify(zint(it.n)), z3.simplify(zint(n))):
+                    return SBytes([it])
+                return None
+            k = k + (it.n if isinstance(it, Seg) else 1)
+        return None
 
     def eq(self, other) -> "z3.BoolRef | bool":
         other = SBytes.of(other)
